@@ -124,6 +124,8 @@ def run_virtual(main_factory, *, start_ns=1_000_000_000, max_steps=200_000, at_s
                     res = ("error", e)
             except Exception as e:  # noqa
                 res = ("error", e)
+            except asyncio.CancelledError as e:  # the awaited call was torn down by a cancellation nobody requested
+                res = ("error", e)
             # cancel what is left
             try:
                 pending = [t for t in asyncio.all_tasks(loop) if not t.done()]
